@@ -5,7 +5,7 @@ package rib
 // Contracts for deductive verification (read by /verif/govc). This file holds
 // comments only: it cannot change behaviour with the build tag on or off.
 
-//@ guarded_by RIB.nrMu: niRIB
+//@ guarded_by RIB.nrMu: niRIB, postChangeHook
 //@ guarded_by RIB.pendMu: pendingEntries
 
 //@ pred holdersNonNil(r *RIB) = forall k in dom(r.niRIB) :: r.niRIB[k] != nil
@@ -851,20 +851,20 @@ package rib
 //@ assigns nothing
 
 //@ unit NewRIBHolder$1
-//@ requires fn != nil
+//@ requires fn != nil && fn.fn != nil
 //@ assigns nothing
 //@ props C02 C12:safety
 
 //@ unit hasCheckFn
 //@ ensures[found] result0 != nil ==> exists i in 0..len(opts) :: istype(opts[i], *ribHolderCheckFn) && payload(opts[i]) == result0
-//@ ensures[none] result0 == nil ==> forall i in 0..len(opts) :: !istype(opts[i], *ribHolderCheckFn) || payload(opts[i]) == 0
-//@ loop 1 at "range opts" invariant forall i in 0..loopi :: !istype(opts[i], *ribHolderCheckFn) || payload(opts[i]) == 0
+//@ ensures[none] (forall i in 0..len(opts) :: !istype(opts[i], *ribHolderCheckFn)) ==> result0 == nil
+//@ loop 1 at "range opts" invariant forall i in 0..loopi :: !istype(opts[i], *ribHolderCheckFn)
 //@ assigns nothing
 //@ props C16 C12:safety
 
 //@ unit hasRHDisableForwardRef
-//@ ensures result0 <==> exists i in 0..len(opts) :: istype(opts[i], *disableForwardRef)
-//@ loop 1 at "range opts" invariant forall i in 0..loopi :: !istype(opts[i], *disableForwardRef)
+//@ ensures result0 <==> exists i in 0..len(opt) :: istype(opt[i], *disableForwardRef)
+//@ loop 1 at "range opt" invariant forall i in 0..loopi :: !istype(opt[i], *disableForwardRef)
 //@ assigns nothing
 //@ props C16 C12:safety
 
@@ -893,10 +893,10 @@ package rib
 //@ props C16 C01 C12:safety
 
 //@ unit RIB.SetPostChangeHook
-//@ requires r != nil && (forall k in dom(r.niRIB) :: r.niRIB[k] != nil) && nolocks(RIBHolder.mu)
+//@ requires r != nil && (forall k in dom(r.niRIB) :: r.niRIB[k] != nil) && nolocks(RIBHolder.mu) && held(r.nrMu) == 0
 //@ ensures[all-instances] r.postChangeHook == fn && hookInv(r)
 //@ loop 1 at "range r.niRIB" invariant forall k in visited :: k in dom(r.niRIB) ==> r.niRIB[k].postChangeHook == fn
-//@ loop 1 invariant nolocks(RIBHolder.mu) && r.postChangeHook == fn
+//@ loop 1 invariant nolocks(RIBHolder.mu) && r.postChangeHook == fn && held(r.nrMu) == 2
 //@ assigns r.postChangeHook, all(RIBHolder.postChangeHook)
 //@ props C16 C12:safety
 
